@@ -64,6 +64,21 @@ def dyadic(rng, bits=20, emin=-8, emax=8, signed=True):
     return x + 0.0   # no -0.0
 
 
+DECIMALS = [0.1, 0.3, 1 / 3, 1e-3, 0.7, 2.2, 0.2, 1.1, 1e15 + 0.5, 123.456, 1e-9, 0.30000000000000004]       # no subnormal values: see C10.py level_note (10)
+
+
+def decimal(rng):
+    """a NON-dyadic value (0.1, 0.3, 1/3, ...): binary64 rounding shows in x * w and in sums; the exact model sees the double"""
+    r = rng.random()
+    if r < 0.5:
+        x = rng.choice(DECIMALS)
+    elif r < 0.8:
+        x = round(rng.uniform(-10, 10), rng.choice([1, 2, 3]))
+    else:
+        x = rng.uniform(0, 1) * 10.0 ** rng.randint(-6, 15)
+    return -x if rng.random() < 0.2 else x + 0.0
+
+
 class Sim:
     """what the generator must know about a slot to keep the oracle able to follow"""
     def __init__(self, k):
@@ -88,7 +103,7 @@ class Builder:
         b = x if isinstance(x, int) else fb(x)
         finite = b not in (NAN, INF, NINF)
         if finite:
-            if s.nb == 4 * capacity(s.k):
+            if s.nb >= 4 * capacity(s.k):          # update(): buffer.len() >= capacity * BUFFER_MULTIPLIER (repair 5ca8d9c)
                 self.ops.append((12, [slot])); s.nb = 0
             s.nb += 1; s.n += 1
             v = struct.unpack("<d", struct.pack("<Q", b))[0]
@@ -160,6 +175,8 @@ def qgrid(rng, total=None):
             qs.append(j / (2 * total))
         qs += [1 / total, (total - 1) / total, 0.5 / total, (total - 0.5) / total]
     qs += [rng.getrandbits(16) / 65536 for _ in range(8)]
+    # NON-dyadic ranks: q * total is rounded; the exact model sees the double q
+    qs += [0.313, 1 / 3, 0.1, 0.9, 6 / 11, 0.5454545454545453, 0.7, 1e-3, 1 - 1e-3] + [j / 11 for j in range(12)] + [rng.random() for _ in range(6)]
     return sorted(set(q for q in qs if 0 <= q <= 1))
 
 
@@ -190,7 +207,7 @@ def random_view(rng, kind):
     centroids away from min / max (the region of the former finding tdigest-D17) are NOT avoided"""
     n = rng.choice([1, 2, 2, 3, 3, 4, 5, 6, 8, 12, 20]) if rng.random() < 0.9 else rng.randint(20, 120)
     pool_bits = rng.choice([3, 6, 20])
-    means = sorted(dyadic(rng, pool_bits, -4, 6) for _ in range(n))
+    means = sorted((decimal(rng) if pool_bits == 3 and n > 2 else dyadic(rng, pool_bits, -4, 6)) for _ in range(n))
     if rng.random() < 0.6:
         means = sorted(set(means))
         n = len(means)
@@ -211,7 +228,7 @@ def random_view(rng, kind):
             p *= 2
         i = rng.randrange(n)
         ws[i] += p - tot
-    gap_lo = rng.choice([0, 0, 1, 0.5, 16]); gap_hi = rng.choice([0, 0, 1, 0.25, 8])
+    gap_lo = rng.choice([0, 0, 1, 0.5, 16, 0.1, 1e9, 1e15]); gap_hi = rng.choice([0, 0, 1, 0.25, 8, 0.3, 1e9, 1e15])     # max >> last mean: the interpolation must not cancel
     mn, mx = means[0] - gap_lo, means[-1] + gap_hi
     if kind == "loose-unit":
         if rng.random() < 0.5:
@@ -308,15 +325,22 @@ def stream(rng, shape, n):
         mix = rng.choice([0.0, 0.0, 0.02, 0.1, 0.5])
         return [(rng.uniform(-10, 10) if rng.random() < mix else
                  (rng.choice(big) if rng.random() < 0.8 else rng.uniform(-1.7e308, 1.7e308))) for _ in range(n)]
+    if shape == "decimal":
+        # non-dyadic values, many repeated (13 x 0.3: quantile left [min, max]; fixed defect tdigest-C10-quantile-outside-range)
+        pool = [decimal(rng) for _ in range(rng.choice([1, 1, 2, 5, 50]))]
+        return [rng.choice(pool) for _ in range(n)]
+    if shape == "offset":
+        base = rng.choice([1e15, -1e15, 1e9, 4503599627370496.0, 1e300])
+        return [base + (i % 64) * (abs(base) * 2.0 ** -50 + (1 if abs(base) < 1e16 else 0)) for i in range(n)]
     if shape == "heavy":
         # one heavily repeated value inside a spread-out remainder (the equal-means path of the merge pass)
-        hv = rng.choice([1.0, 0.0, 50.0, dyadic(rng, 6, 0, 6)])
+        hv = rng.choice([1.0, 0.0, 50.0, 0.1, 0.3, dyadic(rng, 6, 0, 6)])
         frac = rng.choice([0.5, 0.9, 0.99])
         return [hv if rng.random() < frac else rng.uniform(0, 100) for _ in range(n)]
     return [rng.gauss(0, 1) for _ in range(n)]
 
 
-SHAPES = ["sorted", "reversed", "random", "dups", "clustered", "huge", "doubles", "gauss", "extreme", "heavy"]
+SHAPES = ["sorted", "reversed", "random", "dups", "clustered", "huge", "doubles", "gauss", "extreme", "heavy", "decimal", "offset"]
 
 
 EXTREME_KS = [10, 10, 11, 29, 30, 31, 32767, 32768, 40000, 65535]
@@ -402,7 +426,10 @@ def targeted_case(rng, cid, tier):
       fallback branch);
     * one heavily repeated value inside a spread-out stream with k >= 50 (the equal-means path of the merge pass:
       cluster sizes against the scale function, rank next to the heavy value)."""
-    if rng.random() < 0.5:
+    r = rng.random()
+    if r < 0.3:
+        return stream_case(rng, cid, tier, kchoices=[10, 10, 20, 100], shape=rng.choice(["decimal", "offset"]), sizes=[13, 100, 5000, 5574])
+    if r < 0.65:
         return stream_case(rng, cid, tier, kchoices=[10, 10, 12, 15, 20], shape="extreme", sizes=[1000, 2000, 3000])
     return stream_case(rng, cid, tier, kchoices=[50, 100, 200], shape="heavy",
                        sizes=[3000, 6000] if tier == "quick" else [10000, 30000])
@@ -499,28 +526,32 @@ def enc_ref(k, mn, mx, cs, flt=False, unused=(210, 1050)):
     return list(b)
 
 
-def random_abstract(rng, flt=False, maxn=40, maxw=2 ** 20, with_buffer=True):
+def random_abstract(rng, flt=False, maxn=40, maxw=2 ** 20, with_buffer=True, nb=None):
     """sorted means, positive weights, min <= first mean, last mean <= max, tight unit ends"""
     n = rng.choice([1, 2, 2, 3, 4, 5, 8, 12, maxn])
     bits = rng.choice([3, 6, 16])
     means = sorted(set(dyadic(rng, bits, -4, 6) for _ in range(n)))
+    if rng.random() < 0.25:
+        means = sorted(set(decimal(rng) for _ in range(n)))          # non-dyadic means
     if rng.random() < 0.2 and len(means) > 2:
         means[1] = means[0]                          # duplicate means are legal
     ws = [rng.choice([1, 1, 2, 3, 7, 64, 1000, rng.randint(1, maxw)]) for _ in means]
-    mn = means[0] - rng.choice([0, 0, 1, 0.5, 16]); mx = means[-1] + rng.choice([0, 0, 1, 0.25, 8])
+    mn = means[0] - rng.choice([0, 0, 1, 0.5, 16, 0.1, 1e9, 1e15]); mx = means[-1] + rng.choice([0, 0, 1, 0.25, 8, 0.3, 1e9, 1e15])
     tight = rng.random() < 0.5                       # half of the images have the in-process shape
     if tight and ws[0] == 1:
         mn = means[0]
     if tight and ws[-1] == 1:
         mx = means[-1]
-    nb = rng.choice([0, 0, 1, 2, 5, 17]) if with_buffer else 0
+    nb = nb if nb is not None else (rng.choice([0, 0, 1, 2, 5, 17]) if with_buffer else 0)
     # buffered values of a real digest: the centroids end in unit centroids sitting on the old extremes and a
     # buffered value lies between them or is a new extreme; the other half are arbitrary valid images (unit
     # or heavy end centroids anywhere inside [min, max]: the region of the former finding tdigest-D17)
     if nb and tight:
         ws[0] = ws[-1] = 1; mn, mx = means[0], means[-1]
     lo, hi = (means[0], means[-1]) if tight else (mn, mx)
-    buffered = [lo + (hi - lo) * rng.randrange(0, 65) / 64 for _ in range(nb)] if hi > lo else [lo] * nb
+    # clamped: lo + (hi - lo) * 64 / 64 may round past hi when the ends differ by 1e15 (a value outside [min, max] is
+    # accepted by the reader but is not a consistent image: declared gap, C17_tdigest covers)
+    buffered = [min(max(lo + (hi - lo) * rng.randrange(0, 65) / 64, lo), hi) for _ in range(nb)] if hi > lo else [lo] * nb
     if nb and rng.random() < 0.3:
         mn = mn - 1; buffered[0] = mn
     if nb > 1 and rng.random() < 0.3:
@@ -542,7 +573,11 @@ def variant_image(rng):
         flt = kind.endswith("f32"); v = dyadic(rng, 12, -6, 8)
         return (21 if flt else 15), enc_own(k, v, v, [(v, 1)], rev=rev, flt=flt, flag_hi=flag_hi, unused=unused), k, 1, 0, v, v, [v]
     flt = kind in ("own-f32", "ref-f")
-    mn, mx, cs, buffered = random_abstract(rng, flt=flt, maxw=(2 ** 20 if kind != "ref-f" else 2 ** 16), with_buffer=kind.startswith("own"))
+    over = kind.startswith("own") and rng.random() < 0.1
+    if over:
+        k = rng.choice([10, 12, 20])                 # an image announcing MORE buffered values than 4 * capacity (fixed 5ca8d9c)
+    mn, mx, cs, buffered = random_abstract(rng, flt=flt, maxw=(2 ** 20 if kind != "ref-f" else 2 ** 16), with_buffer=kind.startswith("own"),
+                                           nb=(4 * capacity(k) + rng.choice([0, 1, 7, 100]) if over else None))
     total = sum(w for _, w in cs)
     means = [m for m, _ in cs]
     if kind.startswith("own"):
